@@ -245,6 +245,16 @@ WITNESSES = [
      rec("R", [fld("x", "int"), fld("b", ["null", {"type": "map", "values": {"type": "fixed", "name": "DF2", "size": 1}}], default={"k": "þ"})]), {"x": 1}),
     ("default-union-nonfirst-double", rec("R", [fld("x", "int")]), rec("R", [fld("x", "int"), fld("b", ["null", "double"], default=3)]), {"x": 1}),
     ("default-union-first-fits", rec("R", [fld("x", "int")]), rec("R", [fld("x", "int"), fld("b", ["string", "bytes"], default="ÿ")]), {"x": 1}),
+    ("writer-alias-reader-only-default", rec("R", [fld("a", "int", aliases=["b"])]), rec("R", [fld("b", "int", default=-1)]), {"a": 42}),
+    ("writer-alias-reader-only-nodefault", rec("R", [fld("a", "int", aliases=["b"])]), rec("R", [fld("b", "int")]), {"a": 42}),
+    ("writer-alias-reader-only-other-type", rec("R", [fld("a", "int", aliases=["b"])]), rec("R", [fld("b", "string", default="none")]), {"a": 42}),
+    ("writer-alias-nested", rec("R", [fld("items", {"type": "array", "items": rec("I", [fld("id", "int"), fld("a", "int", aliases=["b"])])})]),
+     rec("R", [fld("items", {"type": "array", "items": rec("I", [fld("id", "int"), fld("b", "string", default="none")])})]),
+     {"items": [{"id": 7, "a": 1}, {"id": 7, "a": 2}]}),
+    ("writer-alias-and-reader-alias", rec("R", [fld("a", "int", aliases=["b"]), fld("c", "int")]),
+     rec("R", [fld("b", "long", default=5), fld("c2", "int", aliases=["c"])]), {"a": 42, "c": 3}),
+    ("writer-type-alias-ignored", {"type": "fixed", "name": "F", "size": 4, "aliases": ["G"]}, {"type": "fixed", "name": "G", "size": 4}, b"abcd"),
+    ("writer-type-alias-ignored-record", rec("R", [fld("x", "int")], aliases=["S"]), rec("S", [fld("x", "int")]), {"x": 1}),
     ("default-missing", rec("R", [fld("x", "int")]), rec("R", [fld("x", "int"), fld("n", "int")]), {"x": 1}),
     ("same-unqualified-in-union", [rec("a.R", [fld("x", "int")]), rec("b.R", [fld("y", "string")])],
      [rec("a.R", [fld("x", "int")]), rec("b.R", [fld("y", "string")])], {"y": "hello"}),
@@ -290,6 +300,8 @@ def gen_writer(rng):
         if rng.random() < 0.7 and not (isinstance(raw, dict) and raw.get("type") == "record" and raw["fields"]):
             continue
         raw = json.loads(json.dumps(raw))
+        if rng.random() < 0.3:
+            evolve.add_writer_aliases(raw, rng)
         named = {}
         try:
             parsed = fastavro.parse_schema(copy.deepcopy(raw), named)
